@@ -307,6 +307,9 @@ func runC13(c *Ctx) {
 			}
 			call := in.(ssa.CallInstruction)
 			ifs := regResultTests(call)
+			if _, inner := e.regWrapper(fn); inner != nil && len(ifs) == 0 {
+				return // returned as it is: tested where the helper is called
+			}
 			if len(ifs) == 0 {
 				c.bad(fn, "registration", in.Pos(), "the result of the registration is not tested: the slot cannot be registered on success only")
 				return
@@ -347,14 +350,23 @@ func runC13(c *Ctx) {
 				c.touch(hf)
 				var deregs []ssa.Instruction
 				eachInstr(hf, func(in ssa.Instruction) {
-					if _, isCall := in.(*ssa.Call); isCall && isCallToFn(in, dereg) {
-						deregs = append(deregs, in)
+					if _, isCall := in.(*ssa.Call); isCall && doesDeep(in, func(x ssa.Instruction) bool { return isCallToFn(x, dereg) }) {
+						deregs = append(deregs, in) // directly, or through a one-line helper (releaseSlot())
 					}
 				})
 				good := len(deregs) > 0
 				eachInstr(hf, func(in ssa.Instruction) {
 					cc, ok := in.(*ssa.Call)
 					if !ok || isCallToFn(in, dereg) {
+						return
+					}
+					isDereg := false
+					for _, d := range deregs {
+						if d == in {
+							isDereg = true
+						}
+					}
+					if isDereg {
 						return
 					}
 					completes := isDynamicFuncCall(cc)
